@@ -214,6 +214,77 @@ theorem cn_scale_pos (c0 c1 : Rat) (h0 : 0 ≤ c0) : 0 < scaleOf c0 c1 := by
   unfold scaleOf Const.CN_SCALE_ADD
   split <;> linarith
 
+theorem cn_sum_map_nonneg {α : Type} (l : List α) (f : α → Rat) (h : ∀ x ∈ l, 0 ≤ f x) : 0 ≤ (l.map f).sum := by
+  induction l with
+  | nil => simp
+  | cons x xs ih =>
+    have h1 := h x (by simp)
+    have h2 := ih (fun y hy => h y (by simp [hy]))
+    simp only [List.map_cons, List.sum_cons]; linarith
+
+/-- **cn_objective_nonneg** the objective of the structure model is non-negative at every
+feasible point: absolute-error helpers are bounded below by 0, selectors are binary, and all
+weights are non-negative -/
+theorem cn_objective_nonneg (I : CNInst) (σ : CVar → Rat) (h : I.build.Sat σ)
+    (hd : 0 ≤ I.prof.cnDiff) (hf : 0 ≤ I.prof.cnFit) (hp : 0 ≤ I.prof.cnParsimony) (hpce : 0 ≤ I.prof.cnPcePenalty)
+    (hl : 0 ≤ I.prof.cnFusionLeft) (hr : 0 ≤ I.prof.cnFusionRight) :
+    0 ≤ I.build.objective σ := by
+  rw [cn_objective]
+  have hnU : 0 ≤ I.nU := by unfold CNInst.nU; positivity
+  have hbase : 0 ≤ I.parsimonyBase := by
+    unfold CNInst.parsimonyBase
+    exact div_nonneg (le_of_lt cn_parsimony_base_pos) hnU
+  have hABSE : ∀ rc ∈ I.rows, 0 ≤ σ (.ABSE rc.1) := by
+    intro rc hrc
+    have := h.1 (CVar.ABSE rc.1, Kind.cont (some 0) none) (by
+      simp only [CNInst.build, List.mem_append, List.mem_map]
+      exact Or.inl (Or.inr ⟨rc, hrc, rfl⟩))
+    exact this.1 0 rfl
+  have hABSEG : ∀ rc ∈ I.rows, 0 ≤ σ (.ABSEG rc.1) := by
+    intro rc hrc
+    have := h.1 (CVar.ABSEG rc.1, Kind.cont (some 0) none) (by
+      simp only [CNInst.build, List.mem_append, List.mem_map]
+      exact Or.inr ⟨rc, hrc, rfl⟩)
+    exact this.1 0 rfl
+  have hS : ∀ s ∈ I.slots, 0 ≤ σ (CNInst.sv s) := by
+    intro s hs
+    have : IsBin (σ (CNInst.sv s)) := h.1 (CNInst.sv s, Kind.bin) (by
+      simp only [CNInst.build, List.mem_append, List.mem_map]
+      exact Or.inl (Or.inl (Or.inl ⟨s, hs, rfl⟩)))
+    exact this.nonneg
+  have hpen : ∀ name, 0 ≤ I.penalty name := by
+    intro name
+    unfold CNInst.penalty
+    cases I.gene.config? name with
+    | none => simp; exact hbase
+    | some c =>
+      simp only
+      have a1 : 0 ≤ (if c.kind == .rightFusion then I.parsimonyBase * I.prof.cnFusionRight else 0) := by
+        split_ifs
+        · exact mul_nonneg hbase hr
+        · exact le_refl _
+      have a2 : 0 ≤ (if c.kind == .leftFusion then I.parsimonyBase * I.prof.cnFusionLeft else 0) := by
+        split_ifs
+        · exact mul_nonneg hbase hl
+        · exact le_refl _
+      linarith
+  have t1 := cn_sum_map_nonneg I.rows (fun rc => I.prof.cnDiff / I.nU *
+      (if (CVar.E rc.1).name == Const.CN_PCE_VAR then I.prof.cnPcePenalty else 1) * σ (.ABSE rc.1)) (by
+    intro rc hrc
+    have w : 0 ≤ (if (CVar.E rc.1).name == Const.CN_PCE_VAR then I.prof.cnPcePenalty else 1) := by
+      split_ifs
+      · exact hpce
+      · norm_num
+    exact mul_nonneg (mul_nonneg (div_nonneg hd hnU) w) (hABSE rc hrc))
+  have t2 := cn_sum_map_nonneg I.rows (fun rc => I.prof.cnFit / I.nU * σ (.ABSEG rc.1)) (by
+    intro rc hrc
+    exact mul_nonneg (div_nonneg hf hnU) (hABSEG rc hrc))
+  have t3 := cn_sum_map_nonneg I.slots (fun s => I.prof.cnParsimony * I.penalty s.name * σ (CNInst.sv s)) (by
+    intro s hs
+    exact mul_nonneg (mul_nonneg hp (hpen s.name)) (hS s hs))
+  linarith
+
+
 /-! ## The fold of yielded assignments into reported structures -/
 
 def foldStep (del : Option String) (acc : List (List String × Rat)) (y : Rat × List (String × Int)) :
